@@ -175,7 +175,8 @@ PROPS["C03"] = {
     "units": [{
         "pkg": "command",
         "tests": [T("TestC03Detection", {"checks": 40, "shards": 10}, {"checks": 400, "shards": 16}),
-                  T("TestC03Netns", {"checks": 6, "shards": 6}, {"checks": 60, "shards": 12})],
+                  T("TestC03Netns", {"checks": 6, "shards": 6}, {"checks": 60, "shards": 12}),
+                  T("TestC03Burst", {"checks": 3, "shards": 4}, {"checks": 20, "shards": 8})],
     }],
 }
 
